@@ -3,10 +3,10 @@
    specification pieces (resolve_partial, depth_step, partial_context,
    partial_inner, partial_cleanup, is_self) are in Spec/RenderFrameSpec.v and
    run_block_decorators, one_block, assoc_last, base_fields in
-   Proofs/PartialSpec.v (each a few lines).
-
-   The part of the property that is FALSE of the model (finding F3: "any
-   number of times") is C09_refuted_twice. *)
+   Proofs/PartialSpec.v (each a few lines).  Since the repair of F3/F4 the
+   former refutations are replaced by the positive theorems
+   C09_partial_block_bound / _every_use / _all_uses / _enter / _closure and
+   C09_self_include_element / C09_self_include_after_elements. *)
 From HB Require Import Reg.RegOps Spec.RenderFrameSpec Proofs.PartialSpec.
 
 (* partial_spec: when the call's inline decorators ran (state s1), the name is
@@ -51,9 +51,17 @@ Theorem C09_partial_restores : forall (reg : registry) (data : json) (ft : ftabl
   expand_partial reg data ft (S f) d s = ROk tt s' ->
   exists s1, run_block_decorators reg data ft f d s = ROk tt s1 /\
     s_blocks s' = s_blocks s1 /\ s_indent s' = s_indent s1 /\
-    s_current s' = s_current s1 /\ s_pb_stack s' = s_pb_stack s1.
+    s_current s' = s_current s1 /\ s_pb_stack s' = s_pb_stack s1 /\
+    s_pb_depth s' = s_pb_depth s1.
 Proof. exact partial_restores. Qed.
 Print Assumptions C09_partial_restores.
+
+(* and with respect to the state before the call *)
+Theorem C09_partial_restored : forall (reg : registry) (data : json) (ft : ftable)
+    (f : nat) (d : deco_v) (s s' : rstate),
+  expand_partial reg data ft (S f) d s = ROk tt s' -> restored s s'.
+Proof. exact partial_restored. Qed.
+Print Assumptions C09_partial_restored.
 
 (* hash arguments are for the partial only: afterwards the block stack is the
    caller's own again *)
@@ -191,6 +199,27 @@ Theorem C09_self_include : forall (reg : registry) (data : json) (ft : ftable)
 Proof. exact self_include. Qed.
 Print Assumptions C09_self_include.
 
+(* ... in whatever state of the template's body the partial element is
+   reached: after any finished elements (blocks included) the current name is
+   still the template's, so {{> n}} inside template n is always refused *)
+Theorem C09_self_include_element : forall (reg : registry) (data : json) (ft : ftable)
+    (f : nat) (dt : deco_t) (s : rstate) (d : deco_v) (s2 : rstate),
+  deco_from_template reg data ft (S f) dt s = ROk d s2 ->
+  s_current s = Some (dv_name d) -> dv_tpl d = None ->
+  exists s3, render_element reg data ft (S (S (S f))) (ElPartExpr dt) s = RErr (mk_err RCannotIncludeSelf) s3.
+Proof. exact self_include_element. Qed.
+Print Assumptions C09_self_include_element.
+
+Theorem C09_self_include_after_elements : forall (reg : registry) (data : json) (ft : ftable)
+    (f f' : nat) (g : nat -> rerror -> rerror) (A : list element) (i : nat) (s0 s1 : rstate) (n : str)
+    (dt : deco_t) (d : deco_v) (s2 : rstate),
+  fold_idx (fun e idx s' => rmap_err (render_element reg data ft f' e s') (g idx)) A i s0 = ROk tt s1 ->
+  s_current s0 = Some n ->
+  deco_from_template reg data ft (S f) dt s1 = ROk d s2 -> dv_name d = n -> dv_tpl d = None ->
+  exists s3, render_element reg data ft (S (S (S f))) (ElPartExpr dt) s1 = RErr (mk_err RCannotIncludeSelf) s3.
+Proof. exact self_include_after_elements. Qed.
+Print Assumptions C09_self_include_after_elements.
+
 (* an unknown partial without a block *)
 Theorem C09_not_found : forall (reg : registry) (data : json) (ft : ftable)
     (f : nat) (d : deco_v) (s s1 : rstate),
@@ -201,42 +230,87 @@ Theorem C09_not_found : forall (reg : registry) (data : json) (ft : ftable)
 Proof. exact not_found. Qed.
 Print Assumptions C09_not_found.
 
-(* {{> @partial-block}}: the first use inside a partial called with a block
-   designates that block *)
-Theorem C09_partial_block_first_use : forall (d : deco_v) (merged : json) (s1 : rstate) (pb : template),
-  dv_tpl d = Some pb -> str_eqb (dv_name d) PARTIAL_BLOCK = false ->
-  (0 <= s_pb_depth s1 <= 1)%Z ->
-  get_partial (partial_inner d merged (depth_step d s1)) PARTIAL_BLOCK = Some pb.
-Proof. exact partial_block_first_use. Qed.
-Print Assumptions C09_partial_block_first_use.
+(* {{> @partial-block}}.  Inside a partial called with a block pb the binding
+   is pb, recorded with the depth current at the call *)
+Theorem C09_partial_block_bound : forall (d : deco_v) (merged : json) (s : rstate) (pb : template),
+  dv_tpl d = Some pb ->
+  current_pb (partial_inner d merged s) = Some (pb, s_pb_depth s) /\
+  get_partial (partial_inner d merged s) PARTIAL_BLOCK = Some pb.
+Proof. exact partial_block_bound. Qed.
+Print Assumptions C09_partial_block_bound.
 
-(* F3: "any number of times" is false of the model: with
-   p = {{> @partial-block}}{{> @partial-block}} and m = {{#> p}}D{{/p}},
-   rendering m writes D once and then fails on the second use *)
-Theorem C09_refuted_twice :
-  exists reg data ft fuel t s e s',
-    t = reg_tpl reg (`"m") /\
-    map_get (r_templates reg) (`"p") = Some (reg_tpl reg (`"p")) /\
-    (exists d1 d2 d0 b, t_els (reg_tpl reg (`"p")) = [ElPartExpr d1; ElPartExpr d2] /\
-                        as_name (d_name d1) = Some PARTIAL_BLOCK /\ as_name (d_name d2) = Some PARTIAL_BLOCK /\
-                        t_els t = [ElPartBlock d0] /\ d_name d0 = PName (`"p") /\
-                        d_tpl d0 = Some b /\ t_els b = [ElRaw (`"D")]) /\
-    render_template reg data ft fuel t s = RErr e s' /\
-    e_reason e = RPartialNotFound PARTIAL_BLOCK /\
-    out_text (s_out s') = `"D".
-Proof. exact refuted_twice. Qed.
-Print Assumptions C09_refuted_twice.
+(* every use sees it: after any prefix A of a run of elements the
+   @partial-block binding is the one the run started with *)
+Theorem C09_partial_block_every_use : forall reg data ft f (g : nat -> rerror -> rerror) A B i s0 s',
+  fold_idx (fun e idx s' => rmap_err (render_element reg data ft f e s') (g idx)) (A ++ B) i s0 = ROk tt s' ->
+  exists s1,
+    fold_idx (fun e idx s' => rmap_err (render_element reg data ft f e s') (g idx)) A i s0 = ROk tt s1 /\
+    fold_idx (fun e idx s' => rmap_err (render_element reg data ft f e s') (g idx)) B (i + List.length A)%nat s1
+    = ROk tt s' /\
+    restored s0 s1 /\
+    get_partial s1 PARTIAL_BLOCK = get_partial s0 PARTIAL_BLOCK.
+Proof. exact partial_block_every_use. Qed.
+Print Assumptions C09_partial_block_every_use.
 
-Theorem C09_refuted_twice_entry :
-  exists e, render_named f3_twice_reg [] [] (`"m") JNull None = RoErr e (`"D") [] /\
-            e_reason e = RPartialNotFound PARTIAL_BLOCK.
-Proof. exact refuted_twice_entry. Qed.
-Print Assumptions C09_refuted_twice_entry.
+(* any number of times: inside a partial called with a block pb, before every
+   top-level element of the partial's body @partial-block is pb *)
+Theorem C09_partial_block_all_uses : forall reg data ft f d merged s1 pb partial A B s',
+  dv_tpl d = Some pb ->
+  t_els partial = A ++ B ->
+  render_template reg data ft (S f) partial (partial_inner d merged s1) = ROk tt s' ->
+  exists sA,
+    fold_idx (fun e idx s' => rmap_err (render_element reg data ft f e s') (attach_render partial idx)) A 0%nat
+             (set_current (partial_inner d merged s1) (t_name partial)) = ROk tt sA /\
+    current_pb sA = Some (pb, s_pb_depth s1) /\
+    get_partial sA PARTIAL_BLOCK = Some pb.
+Proof. exact partial_block_all_uses. Qed.
+Print Assumptions C09_partial_block_all_uses.
 
-(* the reason: entering @partial-block increments the depth and the cleanup
-   leaves the depth alone *)
-Theorem C09_depth_never_restored : forall (d : deco_v) (before s : rstate),
-  (dv_name d = PARTIAL_BLOCK -> s_pb_depth (depth_step d s) = (s_pb_depth s + 1)%Z) /\
-  s_pb_depth (partial_cleanup d before s) = s_pb_depth s.
-Proof. intros d before s. split; [apply depth_step_block|apply cleanup_keeps_depth]. Qed.
-Print Assumptions C09_depth_never_restored.
+(* entering {{> @partial-block}} when the binding is (pb, d0): pb is rendered,
+   with the depth set to d0 *)
+Theorem C09_partial_block_enter : forall (reg : registry) (d : deco_v) (s : rstate) (pb : template) (d0 : Z),
+  dv_name d = PARTIAL_BLOCK -> current_pb s = Some (pb, d0) ->
+  resolve_partial reg d s = Some pb /\ depth_step d s = set_pb_depth s d0.
+Proof. exact partial_block_enter. Qed.
+Print Assumptions C09_partial_block_enter.
+
+(* which entry a depth denotes depends only on the entries below it *)
+Theorem C09_current_pb_below : forall (sA sB : rstate) (top : list (template * Z)),
+  s_pb_depth sB = s_pb_depth sA -> s_pb_stack sB = top ++ s_pb_stack sA ->
+  (s_pb_depth sA <= Z.of_nat (List.length (s_pb_stack sA)))%Z ->
+  current_pb sB = current_pb sA.
+Proof. exact current_pb_below. Qed.
+Print Assumptions C09_current_pb_below.
+
+(* closure semantics: a block body pb passed at a call site sc (recorded with
+   sc's depth dc) and used later through {{> @partial-block}}, from any state
+   s1 whose stack extends sc's and whose binding is (pb, dc), is rendered with
+   @partial-block bound exactly as at the call site *)
+Theorem C09_partial_block_closure : forall (reg : registry) (d : deco_v) (s1 : rstate) (pb : template)
+    (dc : Z) (top : list (template * Z)) (sc : rstate),
+  dv_name d = PARTIAL_BLOCK -> current_pb s1 = Some (pb, dc) ->
+  s_pb_stack s1 = top ++ s_pb_stack sc -> s_pb_depth sc = dc ->
+  (dc <= Z.of_nat (List.length (s_pb_stack sc)))%Z ->
+  resolve_partial reg d s1 = Some pb /\
+  current_pb (depth_step d s1) = current_pb sc.
+Proof. exact partial_block_closure. Qed.
+Print Assumptions C09_partial_block_closure.
+
+(* the side condition `depth <= stack height` is part of an invariant (pb_ok,
+   Proofs/PartialSpec.v) that holds initially and is kept by every step that
+   touches the two fields and by every finished function *)
+Theorem C09_pb_ok_invariant :
+  (forall root dev fa, pb_ok (st_init root dev fa)) /\
+  (forall s s', restored s s' -> pb_ok s -> pb_ok s') /\
+  (forall d s, pb_ok s -> pb_ok (depth_step d s)) /\
+  (forall d merged s, pb_ok s -> pb_ok (partial_inner d merged s)) /\
+  (forall s, pb_ok s -> (s_pb_depth s <= Z.of_nat (List.length (s_pb_stack s)))%Z).
+Proof. exact pb_ok_invariant. Qed.
+Print Assumptions C09_pb_ok_invariant.
+
+(* the cleanup puts back the depth of the state in which the partial was
+   looked up *)
+Theorem C09_depth_restored : forall (d : deco_v) (before s : rstate),
+  s_pb_depth (partial_cleanup d before s) = s_pb_depth before.
+Proof. exact cleanup_restores_depth. Qed.
+Print Assumptions C09_depth_restored.
